@@ -601,21 +601,21 @@ theorem utf16Units_lt : ∀ (cs : List Nat), (∀ c ∈ cs, IsScalar c) → ∀ 
 theorem toNat_toUInt8 (n : Nat) (h : n < 256) : n.toUInt8.toNat = n := by
   simp [Nat.toUInt8]; omega
 
-theorem pairsBE_beBytes : ∀ (us : List Nat), (∀ u ∈ us, u < 65536) → pairsBE (beBytes us) = us := by
+theorem pairsBE_unitsBE : ∀ (us : List Nat), (∀ u ∈ us, u < 65536) → pairsBE (unitsBE us) = us := by
   intro us
   induction us with
   | nil => intro _; rfl
   | cons u us ih =>
     intro h
     have hu := h u (by simp)
-    simp only [beBytes, pairsBE]
+    simp only [unitsBE, pairsBE]
     rw [ih (fun x hx => h x (by simp [hx])), toNat_toUInt8 _ (by omega), toNat_toUInt8 _ (by omega)]
     congr 1; omega
 
-theorem beBytes_length (us : List Nat) : (beBytes us).length = 2 * us.length := by
+theorem unitsBE_length (us : List Nat) : (unitsBE us).length = 2 * us.length := by
   induction us with
   | nil => rfl
-  | cons u us ih => simp [beBytes, ih]; omega
+  | cons u us ih => simp [unitsBE, ih]; omega
 
 /-- the byte-order mark the builder writes is the one the reader tests first -/
 theorem bom_agree : OUTLINE_BOM = TOC_BOM_BE := by decide
@@ -669,9 +669,9 @@ theorem title_roundtrip (t : List Nat) (h : ∀ c ∈ t, IsScalar c) : decodeTit
     unfold decodeTitle
     simp only [OUTLINE_BOM, List.cons_append, List.nil_append]
     have h1 : [(254 : UInt8), 255] = TOC_BOM_BE := by decide
-    have hlen : ¬ ((254 : UInt8) :: 255 :: beBytes (utf16Units t)).length % 2 ≠ 0 := by
-      simp [beBytes_length]; omega
-    simp only [h1, if_true, hlen, if_false, pairsBE_beBytes _ hu, utf16_roundtrip t h]
+    have hlen : ¬ ((254 : UInt8) :: 255 :: unitsBE (utf16Units t)).length % 2 ≠ 0 := by
+      simp [unitsBE_length]; omega
+    simp only [h1, if_true, hlen, if_false, pairsBE_unitsBE _ hu, utf16_roundtrip t h]
 
 /-- distinct titles are stored as distinct byte strings (what `get_toc`'s title-keyed table needs) -/
 theorem titleBytes_injective (t1 t2 : List Nat) (h1 : ∀ c ∈ t1, IsScalar c) (h2 : ∀ c ∈ t2, IsScalar c)
